@@ -53,12 +53,12 @@ class PROP(Prop):
 
     def static_checks(self, w):
         mod = extract.load(GB)
-        fn = mod.func("BaseGateway._thread_receiver")
+        fn = extract.flat_func(mod, "BaseGateway._thread_receiver")
         src = ast.unparse(fn)
         tail = ["self._channelfactory._finished_receiving()", "self._terminate_execution()", "self._io.close_read()", "self._io.close_write()", "self._receivepool.trigger_shutdown()"]
         pos = [src.find(t) for t in tail]
         out = [("static/_thread_receiver/epilogue-order", all(p >= 0 for p in pos) and pos == sorted(pos), f"positions {pos}")]
-        te = ast.unparse(mod.func("WorkerGateway._terminate_execution"))
+        te = extract.flat_src(mod, "WorkerGateway._terminate_execution")
         out.append(("static/_terminate_execution/waits-are-5-and-10-seconds", "waitall(5.0)" in te and "waitall(10.0)" in te and "os._exit(1)" in te, "literal timeouts"))
         return out
 
